@@ -123,7 +123,9 @@ def _job(job):
                 hdr = fits.getheader(path, 1)
                 events.append({"kind": "hdr", "flat": [[k, _val(v, toks)] for k, v in flat.items() if _fits_representable(v)],
                                "header": [[k, _val(hdr[k], toks)] for k in hdr.keys() if str(k).startswith("Config")],
-                               "_m": {"spec": spec, "seed": seed, "nflat": len(flat)}})
+                               "flatkeys": list(flat.keys()),
+                               "_m": {"spec": spec, "seed": seed, "nflat": len(flat),
+                                      "cards_of_no_field": [k for k in hdr.keys() if str(k).startswith("Config") and k not in flat][:6]}})
                 # "stored results can always be reloaded for plotting": the show-plot application on the file with every registered plot
                 # requested.  The drawing itself is not the subject (matplotlib's binning fails on degenerate data: "Too many bins for
                 # data range" on a 59-row balloon run): the registered plot functions are replaced by recorders, so what is judged is the
@@ -219,7 +221,7 @@ def synthetic_events():
             hdr = _fits.getheader(shared, 1)
             flat = flat_config(cfg_k.model_dump())
             ev.append({"kind": "hdr", "flat": [[a, _val(b, {})] for a, b in flat.items() if _fits_representable(b)],
-                       "header": [[a, _val(hdr[a], {})] for a in hdr.keys() if str(a).startswith("Config")],
+                       "header": [[a, _val(hdr[a], {})] for a in hdr.keys() if str(a).startswith("Config")], "flatkeys": list(flat.keys()),
                        "_m": {"sequence_on_one_path": k, "nflat": len(flat)}})
         # ONE configuration object edited in place between runs (an energy scan, what the CLI overrides do): every table must carry
         # the configuration as it is NOW, and reload to it
@@ -250,7 +252,7 @@ def synthetic_events():
             hdr = _fits.getheader(pth, 1)
             flat = flat_config(live.model_dump())
             ev.append({"kind": "hdr", "flat": [[a, _val(b, {})] for a, b in flat.items() if _fits_representable(b)],
-                       "header": [[a, _val(hdr[a], {})] for a in hdr.keys() if str(a).startswith("Config")],
+                       "header": [[a, _val(hdr[a], {})] for a in hdr.keys() if str(a).startswith("Config")], "flatkeys": list(flat.keys()),
                        "_m": {"config_object_edited_in_place": k, "nflat": len(flat)}})
         # the `nuspacesim run` application with overriding options: the file it writes must carry the configuration that PRODUCED the run
         # (the TOML file with the command-line overrides applied) and reload to it
@@ -280,7 +282,8 @@ def synthetic_events():
                 hdr = _fits.getheader(out, 1)
                 flat = flat_config(want.model_dump())
                 ev.append({"kind": "hdr", "flat": [[a, _val(b, {})] for a, b in flat.items() if _fits_representable(b)],
-                           "header": [[a, _val(hdr[a], {})] for a in hdr.keys() if str(a).startswith("Config")], "_m": dict(meta, nflat=len(flat))})
+                           "header": [[a, _val(hdr[a], {})] for a in hdr.keys() if str(a).startswith("Config")], "flatkeys": list(flat.keys()),
+                           "_m": dict(meta, nflat=len(flat))})
                 try:
                     rec = config_from_fits(out)
                     fc, fr = dict(flat_attrs(want)), dict(flat_attrs(rec))
